@@ -187,6 +187,15 @@ def _run_call(ctx, name, A, B, label=""):
         check_permutation(ctx, A, mp, p, sg)
         mp2, p2 = linalg.matrix_pivot(A)
         ctx.check(mp2 == mp and p2 == p, "pivot-inconsistent", "matrix_pivot with and without sign disagree")
+        # the returned matrices belong to the caller: overwriting them does not change what later calls return
+        keep_mp, keep_p = [list(r) for r in mp], [list(r) for r in p]
+        for M in (mp, p, mp2, p2):
+            for r in M:
+                for j in range(len(r)):
+                    r[j] = 7.5
+        mp3, p3 = linalg.matrix_pivot(A)
+        ctx.check(mp3 == keep_mp and p3 == keep_p, "pivot-depends-on-earlier-result",
+                  "matrix_pivot called again after the caller overwrote the earlier results returns P = %r, first time %r" % (p3, keep_p))
     elif name == "lu_solve":
         LU = exact_lu(A)
         ctx.exclude_if(SLUG_LU, LU is None)
